@@ -1,0 +1,37 @@
+//go:build verif
+
+// Contracts for the deductive verifier under /verif (gvc). This file contains no
+// declarations: it is comment-only and excluded from normal builds by the tag.
+
+package exec
+
+// ---- C14: placement decision ----
+
+//@ spec func sepArr(a, b int) bool = a == 0 || a != b
+
+//@ func exec.schedule
+//@   requires schedQ != nil && machQ != nil
+//@   requires elems-nonnil: forall(i, 0, len(*schedQ), (*schedQ)[i] != nil) && forall(i, 0, len(*machQ), (*machQ)[i] != nil)
+//@   requires sep: sepArr((*schedQ).arr, (*machQ).arr)
+//@   ensures  both-or-none: (result0 == nil) == (result1 == nil)
+//@   ensures  fits: implies(result0 != nil, result0.procs <= result1.maxTaskProcs - result1.taskProcs)
+//@   ensures  lens: len(*schedQ) == old(len(*schedQ)) && len(*machQ) == old(len(*machQ))
+//@   ensures  elems-nonnil: forall(i, 0, len(*schedQ), (*schedQ)[i] != nil) && forall(i, 0, len(*machQ), (*machQ)[i] != nil)
+//@   modifies *schedQ, *machQ, (*schedQ)[0:cap(*schedQ)], (*machQ)[0:cap(*machQ)], scheduleRequest.index, sliceMachine.index
+//@   loop 1 invariant len(shelvedRequests) == len(shelvedMachines)
+//@   loop 1 invariant len(*schedQ) + len(shelvedRequests) == old(len(*schedQ)) && len(*machQ) + len(shelvedMachines) == old(len(*machQ))
+//@   loop 1 invariant qnn: forall(i, 0, len(*schedQ), (*schedQ)[i] != nil) && forall(i, 0, len(*machQ), (*machQ)[i] != nil)
+//@   loop 1 invariant snn: forall(i, 0, len(shelvedRequests), shelvedRequests[i] != nil && shelvedMachines[i] != nil)
+//@   loop 1 invariant fr: implies(shelvedRequests != nil, fresh(shelvedRequests)) && implies(shelvedMachines != nil, fresh(shelvedMachines))
+//@   loop 1 invariant sp: sepArr(shelvedRequests.arr, shelvedMachines.arr) && sepArr(shelvedRequests.arr, (*schedQ).arr) && sepArr(shelvedRequests.arr, (*machQ).arr) && sepArr(shelvedMachines.arr, (*schedQ).arr) && sepArr(shelvedMachines.arr, (*machQ).arr) && sepArr((*schedQ).arr, (*machQ).arr)
+//@   loop 1 invariant qa: ((*schedQ).arr == old((*schedQ).arr) && (*schedQ).off == old((*schedQ).off) && cap(*schedQ) == old(cap(*schedQ)) || fresh((*schedQ).arr)) && ((*machQ).arr == old((*machQ).arr) && (*machQ).off == old((*machQ).off) && cap(*machQ) == old(cap(*machQ)) || fresh((*machQ).arr))
+//@   loop 2 invariant len(*schedQ) + len(shelvedRequests) - i == old(len(*schedQ)) && len(*machQ) + len(shelvedMachines) - i == old(len(*machQ))
+//@   loop 2 invariant qnn: forall(j, 0, len(*schedQ), (*schedQ)[j] != nil) && forall(j, 0, len(*machQ), (*machQ)[j] != nil)
+//@   loop 2 invariant snn: forall(j, 0, len(shelvedRequests), shelvedRequests[j] != nil && shelvedMachines[j] != nil)
+//@   loop 2 invariant sp1: sepArr(shelvedRequests.arr, (*schedQ).arr)
+//@   loop 2 invariant sp2: sepArr(shelvedRequests.arr, (*machQ).arr)
+//@   loop 2 invariant sp3: sepArr(shelvedMachines.arr, (*schedQ).arr)
+//@   loop 2 invariant sp4: sepArr(shelvedMachines.arr, (*machQ).arr)
+//@   loop 2 invariant sp5: sepArr((*schedQ).arr, (*machQ).arr)
+//@   loop 2 invariant qa: ((*schedQ).arr == old((*schedQ).arr) && (*schedQ).off == old((*schedQ).off) && cap(*schedQ) == old(cap(*schedQ)) || fresh((*schedQ).arr)) && ((*machQ).arr == old((*machQ).arr) && (*machQ).off == old((*machQ).off) && cap(*machQ) == old(cap(*machQ)) || fresh((*machQ).arr))
+//@   loop 2 invariant fr: implies(shelvedRequests != nil, fresh(shelvedRequests)) && implies(shelvedMachines != nil, fresh(shelvedMachines))
